@@ -26,7 +26,7 @@ ID = 'C09'
 LEVEL = 'exploration'
 RULE = ('Hypothesis draws a plugin order (permutation of a subset of 4 plugins), per plugin and hook a behaviour in '
         '{pass, modify, drop, reject} (before_upstream_connection, handle_client_request), {pass, modify, drop} '
-        '(handle_upstream_chunk, handle_client_data, on_access_log), an optional resolve_dns override, auth on/off, 1..2 '
+        '(handle_upstream_chunk, handle_client_data, on_access_log), an optional resolve_dns override, auth on/off, --enable-proxy-protocol with a valid v1 line (TCP4 / TCP6 / UNKNOWN with and without addresses) on/off, 1..2 '
         'requests, the ending (client/origin close or reset at quiescence, or an abort at a generated iteration) and the '
         'schedule. Non-trivial: >= 2 plugins with >= 1 non-pass behaviour, or an abort ending; distinct by case hash.')
 ASSUMPTIONS = ['unique plugin names (documented precondition: the plugin map is keyed by name())', 'AF_UNIX pairs stand in for TCP']
